@@ -293,8 +293,8 @@ pub fn run(ctx: &Ctx) {
     ctx.set_rule(
         "layers: A all strings over the 14-byte markup alphabet Σm; B the same x all 128 configurations; \
          C all sequences of 22 multi-byte atoms; D construct-specific contexts prefix·w·tail with w exhaustive, \
-         with and without BOM; E the repository's sample documents. Each (input, configuration) is one \
-         execution of the real slice reader compared event by event (kind, content bytes, name/target length, \
+         with and without BOM; E the repository's sample documents; layers A and C also through the buffered reader with piece sizes 1 and 2. \
+         Each (input, configuration) is one execution of the real reader compared event by event (kind, content bytes, name/target length, \
          error variant + payload, position after every successful event, error position of syntax and end-tag \
          errors) with the reference lexer + configuration layer. non-trivial = the neutral-configuration \
          stream contains at least one markup event or error; distinct = distinct inputs (layer A by \
@@ -329,6 +329,15 @@ pub fn run(ctx: &Ctx) {
         run.space(&sp, &two, false);
     }
     run.space(&context("Init.bom", &[b"", b"\xEF", b"\xEF\xBB", b"\xEF\xBB\xBF", b"\xEF\xBB\xBF\xEF\xBB\xBF"], b"<?xml >a/", t.pick(5, 6), &[b""], false), &two, false);
+
+    // the same lexical oracle for the streaming (buffered) reader: its scanners carry state across
+    // refills, so a lexing bug may exist only there (schedules in depth are C02's business)
+    for piece in [1usize, 2] {
+        run.script = Some(Script::pieces(piece));
+        run.space(&raw(&format!("A.raw.buffered(piece={})", piece), SIGMA_M, t.pick(5, 6)), &two, false);
+        run.space(&atoms(&format!("C.atoms.buffered(piece={})", piece), ATOMS_C, t.pick(3, 4)), &two, false);
+    }
+    run.script = None;
 
     // E: corpus
     let docs = corpus();
